@@ -172,6 +172,11 @@ pub struct ConfigLeak {
     pub via_env: bool,
     /// index into CONFIG_VARIANTS
     pub variant: u8,
+    /// 0 = one load. 1 = the configuration keeps per-client statistics in a persistence directory and is loaded twice
+    /// on the SAME directory, first with another seed, then with this one (a restart after a key change). 2 = file
+    /// source while ROUGHENOUGH_SEED (another seed) and other ROUGHENOUGH_* variables are present in the environment
+    #[serde(default)]
+    pub twist: u8,
 }
 
 /// (name, extra settings, seed override: None = the 64-hex seed; Some(n) = first n hex chars of it)
@@ -213,7 +218,6 @@ pub fn digit_only(seed: &[u8]) -> Vec<u8> {
 }
 
 fn check_config_leak(ctx: &mut Ctx, c0: &ConfigLeak) -> Res {
-    use roughenough::config::{is_valid_config, make_config};
     ctx.eval();
     let mut c = c0.clone();
     if c.digits {
@@ -223,19 +227,79 @@ fn check_config_leak(ctx: &mut Ctx, c0: &ConfigLeak) -> Res {
     }
     let c = &c;
     let needles = Needles::new(&c.seed.0);
+    // the other secret of the twists: a second seed, never to be printed either
+    let mut other_seed = sha512(&[&b"c20-other-seed"[..], &c.seed.0[..]])[..32].to_vec();
+    other_seed[0] |= 0xa0;
+    let other_needles = Needles::new(&other_seed);
+    let twist = c.twist % 3;
     let (vname, extra, seed_cut) = CONFIG_VARIANTS[c.variant as usize % CONFIG_VARIANTS.len()];
+    let _ = take_logs();
+    let dir = crate::proclab::scratch_dir("c20cfg");
+    let mut first_life: Option<String> = None;
+    if twist == 1 {
+        // first life of the server on this directory, under the other seed (whatever it emits is checked as well)
+        let mut first = c.clone();
+        first.seed = Hex(other_seed.clone());
+        first.twist = 0;
+        first.digits = false;
+        first_life = Some(load_once(&first, &dir, true, &[]));
+    }
+    let env_noise: Vec<(String, String)> = if twist == 2 && !c.via_env {
+        vec![("SEED".into(), hex(&other_seed)), ("PORT".into(), "8687".into()), ("BATCH_SIZE".into(), "7".into())]
+    } else {
+        vec![]
+    };
+    let mut emitted: Vec<String> = vec![load_once(c, &dir, twist == 1, &env_noise)];
+    emitted.extend(first_life);
+    let _ = std::fs::remove_dir_all(&dir);
+    // what an embedding program may print about the key objects built from this seed
+    if let Ok(strings) = no_unwind(|| {
+        let ltk = roughenough::key::LongTermKey::new(&c.seed.0);
+        let signer = roughenough::sign::MsgSigner::from_seed(&c.seed.0);
+        vec![format!("{}", ltk), format!("{}", signer), format!("{:?}", signer)]
+    }) {
+        emitted.extend(strings);
+    }
+    let logs = take_logs();
+    for rec in logs.iter().chain(emitted.iter()) {
+        ctx.eval();
+        if let Some(w) = needles.find_text(rec.as_bytes()).or_else(|| if twist != 0 { other_needles.find_text(rec.as_bytes()) } else { None }) {
+            return ctx.fail(
+                format!("secret-in-log|config|{}", vname),
+                format!("configuration variant {:?} ({} source, log level {:?}{}): record {:?} contains {}", vname, if c.via_env { "ENV" } else { "file" }, log::max_level(), ["", ", second start on the same persistence directory after a seed change", ", ROUGHENOUGH_* variables present in the environment"][twist as usize], rec, w),
+            );
+        }
+    }
+    ctx.class(&format!("c20:config:{}:{}:level={:?}{}", if c.via_env { "env" } else { "file" }, vname, log::max_level(), ["", ":restart-same-dir-new-seed", ":file+env-noise"][twist as usize]));
+    ctx.nontrivial(&(&c.seed.0, c.via_env, c.variant % CONFIG_VARIANTS.len() as u8, format!("{:?}", log::max_level()), twist));
+    let _ = (extra, seed_cut);
+    Ok(())
+}
+
+/// load the configuration once (file or ENV), validate it, build a worker from it; returns what was emitted besides
+/// the log (result text or panic message)
+fn load_once(c: &ConfigLeak, dir: &std::path::Path, persist: bool, env_noise: &[(String, String)]) -> String {
+    use roughenough::config::{is_valid_config, make_config};
+    let (_vname, extra, seed_cut) = CONFIG_VARIANTS[c.variant as usize % CONFIG_VARIANTS.len()];
     let seed_hex = hex(&c.seed.0);
     let seed_txt = match seed_cut {
         Some(n) => seed_hex[..n].to_string(),
         None => seed_hex.clone(),
     };
     let mut settings: Vec<(String, String)> = vec![("interface".into(), "127.0.0.1".into()), ("port".into(), "8686".into()), ("seed".into(), seed_txt)];
+    if persist {
+        let pd = dir.join("stats");
+        let _ = std::fs::create_dir_all(&pd);
+        settings.push(("client_stats".into(), "on".into()));
+        settings.push(("persistence_directory".into(), pd.display().to_string()));
+    }
     for (k, v) in extra {
         settings.retain(|x| x.0 != *k);
         settings.push((k.to_string(), v.to_string()));
     }
-    let _ = take_logs();
-    let dir = crate::proclab::scratch_dir("c20cfg");
+    for (k, v) in env_noise {
+        std::env::set_var(format!("ROUGHENOUGH_{}", k), v);
+    }
     let arg = if c.via_env {
         for (k, v) in &settings {
             std::env::set_var(format!("ROUGHENOUGH_{}", k.to_uppercase()), v);
@@ -247,7 +311,6 @@ fn check_config_leak(ctx: &mut Ctx, c0: &ConfigLeak) -> Res {
         std::fs::write(&path, body).unwrap();
         path.display().to_string()
     };
-    let mut emitted: Vec<String> = vec![];
     let r = no_unwind(|| {
         let cfg = make_config(&arg);
         match cfg {
@@ -271,33 +334,14 @@ fn check_config_leak(ctx: &mut Ctx, c0: &ConfigLeak) -> Res {
             std::env::remove_var(format!("ROUGHENOUGH_{}", k.to_uppercase()));
         }
     }
-    let _ = std::fs::remove_dir_all(&dir);
+    for (k, _) in env_noise {
+        std::env::remove_var(format!("ROUGHENOUGH_{}", k));
+    }
     match r {
-        Ok(s) => emitted.push(s),
+        Ok(s) => s,
         // a panic message goes to stderr: it is emitted too
-        Err(p) => emitted.push(p),
+        Err(p) => p,
     }
-    // what an embedding program may print about the key objects built from this seed
-    if let Ok(strings) = no_unwind(|| {
-        let ltk = roughenough::key::LongTermKey::new(&c.seed.0);
-        let signer = roughenough::sign::MsgSigner::from_seed(&c.seed.0);
-        vec![format!("{}", ltk), format!("{}", signer), format!("{:?}", signer)]
-    }) {
-        emitted.extend(strings);
-    }
-    let logs = take_logs();
-    for rec in logs.iter().chain(emitted.iter()) {
-        ctx.eval();
-        if let Some(w) = needles.find_text(rec.as_bytes()) {
-            return ctx.fail(
-                format!("secret-in-log|config|{}", vname),
-                format!("configuration variant {:?} ({} source, log level {:?}): record {:?} contains {}", vname, if c.via_env { "ENV" } else { "file" }, log::max_level(), rec, w),
-            );
-        }
-    }
-    ctx.class(&format!("c20:config:{}:{}:level={:?}", if c.via_env { "env" } else { "file" }, vname, log::max_level()));
-    ctx.nontrivial(&(&c.seed.0, c.via_env, c.variant % CONFIG_VARIANTS.len() as u8, format!("{:?}", log::max_level())));
-    Ok(())
 }
 
 pub fn run(ctx: &mut Ctx) -> Vec<Violation> {
@@ -313,8 +357,8 @@ pub fn run(ctx: &mut Ctx) -> Vec<Violation> {
     let cl = (seed32().prop_map(|mut h| {
         h.0[0] |= 0xa0; // keep the YAML scalar a string
         h
-    }), any::<bool>(), 0u8..CONFIG_VARIANTS.len() as u8)
-        .prop_map(|(seed, via_env, variant)| ConfigLeak { digits: false, seed, via_env, variant });
+    }), any::<bool>(), 0u8..CONFIG_VARIANTS.len() as u8, prop_oneof![3 => Just(0u8), 1 => Just(1u8), 1 => Just(2u8)])
+        .prop_map(|(seed, via_env, variant, twist)| ConfigLeak { digits: false, seed, via_env, variant, twist });
     out.extend(run_prop(ctx, &format!("config-{:?}", level), t.pick(4_000, 40_000), 100, cl, |ctx, c| {
         ctx.sample("config", 2, c);
         check_config_leak(ctx, c)?;
